@@ -16,7 +16,7 @@ from abc import ABCMeta, abstractmethod
 import uuid
 
 from stix2.datastore.filters import Filter, FilterSet
-from stix2.utils import deduplicate, parse_into_datetime
+from stix2.utils import deduplicate, version_instant
 
 
 def make_id():
@@ -488,7 +488,7 @@ class CompositeDataSource(DataSource):
         for obj in all_data:
             ver = obj.get("modified") or obj.get("created")
             if ver is not None:
-                ver = parse_into_datetime(ver)
+                ver = version_instant(ver)
 
             if stix_obj is None or ver is None or ver > latest_ver:
                 stix_obj = obj
